@@ -170,11 +170,20 @@ def _encode(kind, docs, multi=1, times=None):
 def _draw_docs(tape, n_docs, max_len, vocab, bulk_seed=None, zipf=False):
     docs = []
     if bulk_seed is None:
-        for _ in range(n_docs):
-            lk = tape.weighted("l2.doclen_kind", [(1, "empty"), (2, "one"), (6, "short"), (4, "long")])
-            n = {"empty": 0, "one": 1}.get(lk)
-            if n is None:
-                n = tape.between("l2.doclen", 2, 12) if lk == "short" else tape.between("l2.doclen", 13, max_len)
+        # corpus shape: mixed lengths, all documents of one length (chunk boundaries then fall exactly on the
+        # multiples of total / n_threads), or one long document among tiny ones (very uneven chunks)
+        shape = tape.weighted("l2.corpus_shape", [(5, "mixed"), (2, "equal"), (1, "one-long")])
+        eq_len = tape.between("l2.eq_len", 1, 25) if shape == "equal" else None
+        for di in range(n_docs):
+            if shape == "equal":
+                n = eq_len
+            elif shape == "one-long":
+                n = tape.between("l2.doclen", 30, max_len) if di == n_docs // 2 else tape.between("l2.doclen", 0, 2)
+            else:
+                lk = tape.weighted("l2.doclen_kind", [(1, "empty"), (2, "one"), (6, "short"), (4, "long")])
+                n = {"empty": 0, "one": 1}.get(lk)
+                if n is None:
+                    n = tape.between("l2.doclen", 2, 12) if lk == "short" else tape.between("l2.doclen", 13, max_len)
             docs.append(["t%d" % tape.draw("l2.tok", vocab) for _ in range(n)])
     else:
         rs = np.random.RandomState(bulk_seed)
